@@ -15,8 +15,14 @@ For every generated IR x emitter x option combination:
              compared with the value-level spec computed from the IR alone by coq/model/C06Values.v (family run_c06values):
              option string, type, choices, action, help, required, default of every add_argument call; name, annotation and
              value of every class attribute; well-formedness of the function.
-Failures are classified by finding_class_C06_* (coq/model/C06Spec.v) through the driver; the clause names of `run` and
-`spec-table` are unknown to it, so every failure of theirs is unclassified (a violation)."""
+Failures are classified by finding_class_C06_r (coq/model/C06Spec2.v, which keeps every class of finding_class_C06 in
+coq/model/C06Spec.v) through the driver.  The old classifier does not know the clause names of `run` and `spec-table`; the
+refined one names two shapes of the IR, each for the clauses it explains only: a parameter whose declared type mentions List
+with an explicit list-display / scalar default (argparse-list-default-unusable: the option is registered with
+action='append' next to a default that is not a list) and a class attribute declared with the bare type `dict` and a default
+(class-bare-dict-default-lost).  It is told which parameters a failing check speaks of and how the check failed (a failed
+parse_args: the options on the command line, raised / exited; a wrong value: the option).  Every other failure of the run and
+spec-table clauses is unclassified (a violation)."""
 import argparse
 import ast
 import collections
@@ -504,8 +510,11 @@ def ir_data_default(p):
        ('value', v)    the IR gives the explicit default v: a scalar or None, or a back-tick quoted literal display (list /
                        tuple / dict of data) - of the declared type
        ('odd', why)    an explicit default the run clauses do not speak about although it is data of the declared type
-                       (reported shapes: the empty and the one-element sequence; a sequence of two or more under a declared
-                       type that mentions List: the option is registered with action='append' and a str default)"""
+                       (the empty and the one-element sequence under a declared type that does not mention List, a tuple
+                       under one that does)
+    Under a declared type that mentions List (the option is registered with action='append') a list display of any length
+    is a 'value', and so is a scalar the element type admits (the IR doctrans' own argparse reader gives for
+    action='append' with a default): the recorded finding argparse-list-default-unusable."""
     if "default" not in p:
         # (prose that itself announces a default: the emitter reads one out of it)
         return ("out", "prose-announces-default") if "efault" in (p.get("doc") or "") else None
@@ -529,14 +538,36 @@ def ir_data_default(p):
         return ("out", "undeclared-or-opaque-type")
     try:
         if not conforms(v, tp):
+            if v is not None and not isinstance(v, (list, tuple, dict)) and appends(p["typ"]) and list_elem_admits(v, tp):
+                return ("value", v)
             return ("out", "not-of-the-declared-type")
     except Exception:  # noqa
         return ("out", "undeclared-or-opaque-type")
+    if isinstance(v, list) and appends(p["typ"]):
+        return ("value", v)
     if isinstance(v, (list, tuple)) and len(v) < 2:
         return ("odd", "sequence-of-%d" % len(v))
     if isinstance(v, (list, tuple)) and "List" in ast.dump(ast.parse(p["typ"])):
         return ("odd", "sequence-under-List")
     return ("value", v)
+
+
+def appends(typ):
+    """does the declared type mention the name List (ast_utils._parse_node_for_arg then chooses action='append')"""
+    try:
+        return any(isinstance(n, ast.Name) and n.id == "List" for n in ast.walk(ast.parse(typ)))
+    except SyntaxError:
+        return False
+
+
+def list_elem_admits(v, tp):
+    """is v a value the element type of a List inside tp (List[T], Optional[List[T]], Union[.., List[T]]) admits"""
+    origin, args = typing.get_origin(tp), typing.get_args(tp)
+    if origin is list:
+        return not args or conforms(v, args[0])
+    if origin is typing.Union:
+        return any(list_elem_admits(v, a) for a in args)
+    return False
 
 
 def argparse_run_checks(ir, ns, parser, by):
@@ -550,7 +581,9 @@ def argparse_run_checks(ir, ns, parser, by):
                       given comes out with its default;
     parse-given       parse_args with every such option given as the text of its own default does not exit or raise and gives
                       the defaults back.
-    The two parse clauses speak when every explicit default of the IR is of that kind."""
+    The two parse clauses speak when every explicit default of the IR is of that kind.
+    A check of these clauses carries a fourth component: the parameters it speaks of (the option; for a parse_args that exited
+    or raised the options that were on the command line) and how it failed - what the refined Coq classifier is told."""
     out = []
     opts = []
     for n, p in ir["params"].items():
@@ -575,7 +608,7 @@ def argparse_run_checks(ir, ns, parser, by):
                     n, getattr(a.type, "__name__", a.type), v, got)
             elif a.choices is not None and got not in a.choices:
                 ok, what = False, "option --%s: the default %r is not among the registered choices %r" % (n, v, tuple(a.choices))
-        out.append(("default-accepted", ok, what))
+        out.append(("default-accepted", ok, what, {"entries": [n], "mode": "other"}))
         # what argparse itself does with a registered default that is a str: the registered type is applied to it at parse time
         try:
             reg = conv(a.default) if isinstance(a.default, str) else a.default
@@ -585,7 +618,7 @@ def argparse_run_checks(ir, ns, parser, by):
         except Exception as e:  # noqa
             ok, what = False, "option --%s: the registered type %s rejects the registered default %r (%s); the IR's default is %r" % (
                 n, getattr(a.type, "__name__", a.type), a.default, type(e).__name__, v)
-        out.append(("registered-default", ok, what))
+        out.append(("registered-default", ok, what, {"entries": [n], "mode": "other"}))
     if any(dv is not None and dv[0] != "value" for n, p, a, dv in opts):
         out.append(("parse-skipped", True, ""))
         return out
@@ -606,7 +639,8 @@ def argparse_run_checks(ir, ns, parser, by):
         res = quiet_parse(parser, argv)
         if res[0] != "ok":
             out.append((clause, False, "parse_args(%r) %s" % (argv, "exited with status %r: %s" % res[1:] if res[0] == "exit"
-                                                           else "raised %s" % res[1])))
+                                                           else "raised %s" % res[1]),
+                        {"entries": sorted(x.split("/")[0] for x in own), "mode": "exited" if res[0] == "exit" else "raised"}))
             return
         out.append((clause, True, ""))
         for n, p, a, dv in opts:
@@ -614,7 +648,8 @@ def argparse_run_checks(ir, ns, parser, by):
                 continue
             got = res[1].get(a.dest, "<missing>")
             ok = plain(got) == plain(dv[1])
-            out.append((clause, ok, "" if ok else "parse_args(%r): %s = %r, the IR's default is %r" % (argv, n, got, dv[1])))
+            out.append((clause, ok, "" if ok else "parse_args(%r): %s = %r, the IR's default is %r" % (argv, n, got, dv[1]),
+                        {"entries": [n], "mode": "value"}))
 
     run("parse-defaults", lambda a, dv: a.required)
     run("parse-given", lambda a, dv: a.required or has_value(dv))
@@ -655,6 +690,43 @@ def table_region_ir(rng):
     return {"name": None, "type": "static", "doc": doc, "params": params, "returns": ret}, tags
 
 
+# ---- strata of the two recorded shapes (drawn seldom: a case that carries one fails its clauses as a known finding)
+P_LIST_DEFAULT = 0.06      # of the argparse cases
+P_BARE_DICT = 0.05         # of the class cases
+
+
+def list_default_param(rng, tags):
+    """a parameter declared List[T] / Optional[List[T]] over a scalar T with an explicit default: a back-tick quoted list
+    display of no, one, two or more elements of T, or a scalar of T (what doctrans' argparse reader produces for
+    action='append' with a default)"""
+    sc = rng.choice(G.SCALAR_TYPES)
+    typ = "List[%s]" % sc
+    if rng.random() < 0.4:
+        typ = "Optional[%s]" % typ
+    shape = rng.choice(["seq0", "seq1", "seqN", "scalar"])
+    if shape == "scalar":
+        default = fam_emitast.scalar_value_of(rng, sc)
+    else:
+        k = {"seq0": 0, "seq1": 1, "seqN": rng.choice([2, 2, 3])}[shape]
+        default = "```[%s]```" % ", ".join(repr(fam_emitast.scalar_value_of(rng, sc)) for _ in range(k))
+    tags.append("stratum:list-default:%s" % shape)
+    return {"doc": G.clean_prose(rng), "typ": typ, "default": default}
+
+
+def bare_dict_param(rng, tags):
+    """a parameter declared with the bare type `dict` and a default: a back-tick quoted dict display (mostly), a plain word,
+    a number, None"""
+    shape = rng.choice(["display", "display", "display", "word", "number", "none"])
+    if shape == "display":
+        keys = rng.sample(["a", "b", "key", "lr", "name"], rng.choice([1, 2]))
+        default = "```{%s}```" % ", ".join("%r: %r" % (k, fam_emitast.scalar_value_of(rng, rng.choice(["int", "str", "bool"])))
+                                           for k in keys)
+    else:
+        default = {"word": rng.choice(fam_emitast.PLAIN_WORDS), "number": rng.randint(1, 9), "none": None}[shape]
+    tags.append("stratum:bare-dict-default:%s" % shape)
+    return {"doc": G.clean_prose(rng), "typ": "dict", "default": default}
+
+
 def gen_cases(rng, n):
     cases = []
     for _ in range(n):
@@ -676,6 +748,11 @@ def gen_cases(rng, n):
             fam_emitast.add_param(rng, spec, fam_emitast.union_default_param(rng, tags))
         if rng.random() < 0.16:
             fam_emitast.add_param(rng, spec, fam_emitast.literal_display_param(rng, tags))
+        # strata of the recorded shapes: List type with a list-display / scalar default (argparse), bare dict with a default (class)
+        if kind == "argparse" and rng.random() < P_LIST_DEFAULT:
+            fam_emitast.add_param(rng, spec, list_default_param(rng, tags))
+        if kind == "class" and rng.random() < P_BARE_DICT:
+            fam_emitast.add_param(rng, spec, bare_dict_param(rng, tags))
         if kind == "function":
             o = {"function_name": "f", "function_type": rng.choice(["static", "self", "cls"]),
                  "word_wrap": rng.random() < 0.5, "emit_default_doc": rng.random() < 0.5,
@@ -740,7 +817,7 @@ def evaluate(case, with_spec=False):
     res, rec = fam_emitast.call_emitter(kind, copy.deepcopy(ir), o)
     node = rec.node
     if node is None:
-        r = [("emit", False, "the emitter raised %s" % exc_kind(rec.exc))], None
+        r = [("emit", False, "the emitter raised %s" % exc_kind(rec.exc), None)], None
         return r + (None,) if with_spec else r
     checks, src, ns = validity_checks(node, case.get("file"))
     if ns is not None:
@@ -753,6 +830,7 @@ def evaluate(case, with_spec=False):
                 checks += argparse_checks(ir, o, ns, "set_cli_args")
         except Exception as e:  # noqa
             checks.append(("behaviour", False, "reading the executed artefact raised %s" % type(e).__name__))
+    checks = [c if len(c) == 4 else tuple(c) + (None,) for c in checks]
     if not with_spec:
         return checks, node
     try:
@@ -764,7 +842,7 @@ def evaluate(case, with_spec=False):
 
 def check_case(case):
     checks, _, req = evaluate(case, with_spec=True)
-    for clause, ok, what in checks:
+    for clause, ok, what, _info in checks:
         if not ok:
             return False, "%s: %s" % (clause, what)
     v = spec_verdicts([req])[0]
@@ -773,13 +851,21 @@ def check_case(case):
     return True, ""
 
 
-def class_request(case, clause, node):
+def class_request(case, clause, node, info=None):
+    """the request to the refined classifier (coq/model/C06Spec2.v): the arguments of the old one, the parameters the
+    failing check speaks of and how it failed.  An artefact that is not a well-formed tree (the wire cannot carry it: what
+    ast.unparse raises on) is sent as none."""
     o = case["opts"]
     ir = irwire.enc_ir(fam_emitast.materialise_ir(case["ir"]))
-    art = opt(node, astwire.enc_stmt)
-    return dumps([Sym("c06_class"), Sym(case["kind"]), Sym(clause.replace("-", "_")), ir,
+    try:
+        art = opt(node, astwire.enc_stmt)
+    except Exception:  # noqa
+        art = Sym("none")
+    info = info or {}
+    return dumps([Sym("c06_class_r"), Sym(case["kind"]), Sym(clause.replace("-", "_")), ir,
                   bool(o.get("inline_types", False)), bool(o.get("emit_as_kwonlyargs", False)),
-                  bool(o.get("emit_default_doc", False)), bool(o.get("word_wrap", False)), art])
+                  bool(o.get("emit_default_doc", False)), bool(o.get("word_wrap", False)), art,
+                  list(info.get("entries") or []), Sym(info.get("mode") or "other")])
 
 
 def oracle(rng, tier):
@@ -801,15 +887,15 @@ def oracle(rng, tier):
         else:
             # inside the Coq guard the theorem (C06_argparse_partial / C06_class_partial / C06_function_wf_types) speaks about
             # the model; the really emitted tree must agree with the spec computed from the IR alone
-            checks = checks + [("spec-table", v[1], "" if v[1] else SPEC_WHAT[c["kind"]])]
+            checks = checks + [("spec-table", v[1], "" if v[1] else SPEC_WHAT[c["kind"]], None)]
         evaluations += len(checks)
         allok = True
-        for clause, ok, what in checks:
+        for clause, ok, what, info in checks:
             hist["%s:%s:%s" % (c["kind"], clause, "ok" if ok else "FAIL")] += 1
             if not ok:
                 allok = False
                 try:
-                    reqs.append(class_request(c, clause, node))
+                    reqs.append(class_request(c, clause, node, info))
                     pending.append((c, clause, what))
                 except Exception:  # noqa  artefact outside the wire
                     hist["skipped-unencodable"] += 1
@@ -831,7 +917,8 @@ def oracle(rng, tier):
                 "file emission onto a fresh file and, for half the cases, in mode a / wt onto a file in a drawn pre-state, behaviour) "
                 "counted; a third of the IRs carry a token longer than the wrap width in the summary or in prose; strata: a Union / Optional[Union] "
                 "parameter whose default has the type of any member, a back-tick quoted list / tuple / dict display of two or more "
-                "(mixed) elements under a type that admits it, descriptions inside the value-level guards (spec-table clause); non-trivial = distinct (IR, kind) with >= 2 parameters or a return entry "
+                "(mixed) elements under a type that admits it, (seldom) a List-typed option with an empty / one-element / longer list "
+                "display or a scalar as default and a class attribute of the bare type dict with a default (the two recorded shapes), descriptions inside the value-level guards (spec-table clause); non-trivial = distinct (IR, kind) with >= 2 parameters or a return entry "
                 "on which every clause holds",
         "failures": failures,
         "histogram": dict(hist),
